@@ -227,7 +227,7 @@ def spline_native_clauses(fn, inp, res, inverse, same_scale=False):
     c["C09.strictly-increasing"] = pos
     agree = pos and bool(torch.allclose(torch.log(g), ld2.detach(), atol=1e-6, rtol=1e-6))
     if inverse:
-        c["C02.neg-logdet.value"] = agree; c["C02.neg-logdet.positive"] = pos
+        c["C02.neg-logdet.value"] = agree; c["C02.neg-logdet.positive"] = pos; c["C02.neg-logdet"] = agree
         back, ldf = fn(out.detach(), False)
         c["C02.roundtrip_fi"] = bool(torch.allclose(back, tt(inp["x"]), atol=1e-6 * max(1.0, abs(lo), abs(hi)), rtol=1e-6))
     else:
